@@ -3,7 +3,7 @@ import re
 
 from cfg import cfg_of
 from expr import Exprs, fmt, walk, contains
-from mirutil import is_call, for_loops, result_fate, returns_result, dominating_conds, cond_bool
+from mirutil import is_call, for_loops, result_fate, returns_result, dominating_conds, cond_bool, error_blocks
 from framework import site_of
 import callgraph as cgmod
 
@@ -46,6 +46,52 @@ def run(F, rep):
             n7 += 1
             rep.ob("C17-R7", o["instance"], o["ok"], detail=o["detail"], site=o["site"], how=o["how"], key=o["key"].replace(o["rule"], "C17-R7/" + o["rule"][4:]))
     rep.floor("C17-R7", n7, 8, "reader-state clauses shared with C08 (sample writers, contig tables, loader)")
+
+    # ------------------------------------------------------------ R8: buffered output is flushed before success is reported
+    # A BufWriter / LineWriter dropped with data still in its buffer writes it in Drop and throws the error away, so
+    # the command would exit 0 with a truncated file.  Every local of a command body whose type owns such a buffer must,
+    # on every non-error path to the return, pass through a call that (transitively) flushes it and whose Result is
+    # propagated.  (Unbuffered File / locked Stdout sinks need nothing; stdout is flushed explicitly - R3.)
+    flushers = {k for k, v in G.transitive(lambda k: any(not t.get("indirect") and t.get("decl", "").endswith("io::Write::flush") for _, t in F.funcs[k].calls())).items() if v}
+    n8 = 0
+    for f in cmds:
+        gq = cfg_of(f)
+        exq = None
+        errb = error_blocks(f)
+        for l, loc in enumerate(f.locals):
+            ty = loc["ty"]
+            if l == 0 or not re.search(r"io::buffered::(bufwriter::BufWriter|linewriter::LineWriter)<", ty) or ty.startswith("&"):
+                continue
+            if "Stdout" in ty:
+                continue
+            nm = f.local_names().get(l)
+            if nm is None:
+                continue          # compiler temporaries: the named owner is what lives to the end of the scope
+            n8 += 1
+            exq = exq or Exprs(f)
+            inits = [bi for bi, b in enumerate(f.blocks) if (b["term"]["k"] == "call" and b["term"]["dest"]["l"] == l and not b["term"]["dest"]["p"]) or
+                     any(s_["k"] == "assign" and s_["pl"]["l"] == l and not s_["pl"]["p"] for s_ in b["stmts"])]
+            fl = []
+            for bi, t in f.calls():
+                if t.get("indirect"):
+                    continue
+                is_flush = t.get("decl", "").endswith("io::Write::flush") or t["callee"] in flushers and (t["callee"].endswith("::flush") or t["callee"].endswith("::finish") or t["callee"].endswith("::into_inner"))
+                if not is_flush:
+                    continue
+                mentions = any(contains(exq.operand(a), lambda x: x == ("var", nm)) for a in t["args"])
+                if mentions and result_fate(F, f, bi, t) in ("propagated", "returned"):
+                    fl.append(bi)
+            ok = bool(inits) and bool(fl)
+            if ok:
+                # every normal path from the initialisation to a return passes a flush
+                for ib in inits:
+                    reach = gq.reachable_from(ib, avoid=set(fl))
+                    for b2 in reach:
+                        if f.blocks[b2]["term"]["k"] == "return" and b2 not in errb and not _only_error_paths(f, gq, ib, b2, errb, set(fl)):
+                            ok = False
+            rep.ob("C17-R8", "%s: buffered writer `%s` is flushed (result propagated) on every success path before it is dropped" % (f.key.split("::", 1)[-1], nm), ok,
+                   detail="type %s; %d propagated flush call(s) on it" % (ty[:90], len(fl)), site="%s:%d" % (f.file, f.line_lo), key="C17-R8 | %s | %s" % (f.key, nm))
+    rep.stat("buffered_writer_locals_in_commands", n8)
 
     # ------------------------------------------------------------ R1
     nloopcalls = 0
@@ -312,3 +358,18 @@ def _all_defs(f, ex, e):
                     out.extend(_all_defs(f, ex, v) if v != e else [v])
         return out or [e]
     return [e]
+
+
+def _only_error_paths(f, g, src, dst, errb, avoid):
+    """True if every path src -> dst that avoids the flush blocks runs through an error block"""
+    seen = set()
+    st = [src]
+    while st:
+        b = st.pop()
+        if b in seen or b in avoid or b in errb:
+            continue
+        seen.add(b)
+        if b == dst:
+            return False
+        st.extend(g.succ[b])
+    return True
